@@ -125,6 +125,19 @@ def run(check):
             requests.append({'op': 'iso', 'g1': g1.json, 'g2': g2.json, 'q1': [q for q, _ in r1], 'q2': [q for q, _ in r2]})
             meta.append((label, kind, src, src2, a1, a2))
     replies = common.ask_driver(requests, exe='drv_flow')
+    # which real layout pairs are instances of the extractor-level theorem extract_C13 (hypothesis layoutPairOK,
+    # evaluated by drv_extract on the two serialised trees, in both directions)
+    lp_pairs = [(m[2], m[3]) for m in meta if len(m[2]) < 60000]
+    try:
+        lp = extractcorr.layout_pairs(lp_pairs)
+        check.extra['extract_C13_instances'] = {
+            'pairs': len(lp), 'layoutPairOK_forward': sum(1 for x in lp if x['direction'] == 'forward'),
+            'layoutPairOK_reverse_only': sum(1 for x in lp if x['direction'] == 'reverse'),
+            'not_covered(position shared by two nodes in each layout only)': sum(1 for x in lp if not x['ok']),
+            'note': 'covered pairs are instances of the theorem extract_C13 (equal tables at corresponding reads follow from the '
+                    'two trees alone); the others rest on the per-pair validation of C13_layouts on the real graphs below'}
+    except Exception as e:  # the driver op is an extra; its absence is not a verdict
+        check.extra['extract_C13_instances'] = 'not evaluated: %r' % e
     dis = 0
     hyp = {'pairs': 0, 'sameShape': 0, 'queries': 0, 'orderIso_true': 0, 'strict_orderIso_true': 0}
     for (label, kind, src, src2, a1, a2), rep in zip(meta, replies):
